@@ -348,12 +348,14 @@ package avro
 //@ ghost dsz(c iface) int
 //@ ghost cend(c iface, b bytes, i int) int
 //@ ghost wfc(c iface) bool
+//   typed(c)      the codec was built for a Go type (needed to decode into / encode from memory; Skip never needs it)
+//@ ghost typed(c iface) bool
 //   wfval(c,p)    p holds a well-formed Go value of the codec's type (non-nil where required, readable, slice lengths >= 0)
 //@ ghost wfval(c iface, p ptr) bool reads M
 
 //@ iface Codec.Read
 //@   let i0 := r.i, b0 := r.buf
-//@   requires wfRBS(r) && this != nil && wfc(this) && 0 <= dsz(this) && (dsz(this) > 0 ==> p != nil) && rawalloc(p, dsz(this)) && zeroed(p, dsz(this))
+//@   requires wfRBS(r) && this != nil && wfc(this) && typed(this) && 0 <= dsz(this) && (dsz(this) > 0 ==> p != nil) && rawalloc(p, dsz(this)) && zeroed(p, dsz(this))
 //@   ensures [C04,C05,C06,C03] wfRBS(r) && i0 <= r.i && r.buf == b0 && sameobj(b0)
 //@   ensures [C04] err == nil ==> r.i == cend(this, b0, i0)
 //@   ensures base(r.rb.sData) == old(base(r.rb.sData)) || newobj(r.rb.sData)
@@ -376,7 +378,7 @@ package avro
 
 //@ iface Codec.Write
 //@   let b0 := w.buf
-//@   requires w != nil && this != nil && wfc(this) && wfval(this, p)
+//@   requires w != nil && this != nil && wfc(this) && typed(this) && wfval(this, p)
 //@   ensures [C02,C13,C09] len(b0) <= len(w.buf) && forall k int :: 0 <= k && k < len(b0) ==> w.buf[k] == old(b0[k])
 //@   ensures [C02,C13,C09] (base(w.buf) == old(base(w.buf)) || (newobj(w.buf) && !cowned(w.buf))) && off(w.buf) == old(off(w.buf))
 //@   modifies w.buf, BH[w.buf]
@@ -386,27 +388,27 @@ package avro
 
 //@ spec rdable(p ptr, n int) bool = p != nil && rawalloc(p, n)
 //@ spec wfslice(s bytes) bool = 0 <= len(s) && len(s) < 1<<40 && (len(s) == 0 || allocated(s))
-//@ type IntCodec[T] for T in int16,int32,int64 : dsz = sizeof(T) ; wfc = true ; cend(b, i) = vend(b, i) ; wfval(p) = rdable(p, sizeof(T))
-//@ type floatCodec[T] for T in float32,float64 : dsz = sizeof(T) ; wfc = true ; cend(b, i) = i + sizeof(T) ; wfval(p) = rdable(p, sizeof(T))
-//@ type Float32DoubleCodec : dsz = 4 ; wfc = true ; cend(b, i) = i + 8 ; wfval(p) = rdable(p, 4)
-//@ type BoolCodec : dsz = 1 ; wfc = true ; cend(b, i) = i + 1 ; wfval(p) = rdable(p, 1)
-//@ type *fixedCodec : dsz = this.Size ; wfc = this != nil && 0 <= this.Size && this.Size < 1<<40 ; cend(b, i) = i + this.Size ; wfval(p) = this.Size == 0 || rdable(p, this.Size)
-//@ type fixedCodec : dsz = this.Size ; wfc = 0 <= this.Size && this.Size < 1<<40 ; cend(b, i) = i + this.Size ; wfval(p) = this.Size == 0 || rdable(p, this.Size)
-//@ type BytesCodec : dsz = 24 ; wfc = true ; cend(b, i) = vend(b, i) + int(vval(b, i)) ; wfval(p) = rdable(p, 24) && wfslice(membytes(p))
-//@ type StringCodec : dsz = 16 ; wfc = true ; cend(b, i) = vend(b, i) + int(vval(b, i)) ; wfval(p) = rdable(p, 16) && wfslice(memstr(p))
-//@ type nullCodec : dsz = 0 ; wfc = true ; cend(b, i) = i ; wfval(p) = true
+//@ type IntCodec[T] for T in int16,int32,int64 : typed = true ; dsz = sizeof(T) ; wfc = true ; cend(b, i) = vend(b, i) ; wfval(p) = rdable(p, sizeof(T))
+//@ type floatCodec[T] for T in float32,float64 : typed = true ; dsz = sizeof(T) ; wfc = true ; cend(b, i) = i + sizeof(T) ; wfval(p) = rdable(p, sizeof(T))
+//@ type Float32DoubleCodec : typed = true ; dsz = 4 ; wfc = true ; cend(b, i) = i + 8 ; wfval(p) = rdable(p, 4)
+//@ type BoolCodec : typed = true ; dsz = 1 ; wfc = true ; cend(b, i) = i + 1 ; wfval(p) = rdable(p, 1)
+//@ type *fixedCodec : typed = true ; dsz = this.Size ; wfc = this != nil && 0 <= this.Size && this.Size < 1<<40 ; cend(b, i) = i + this.Size ; wfval(p) = this.Size == 0 || rdable(p, this.Size)
+//@ type fixedCodec : typed = true ; dsz = this.Size ; wfc = 0 <= this.Size && this.Size < 1<<40 ; cend(b, i) = i + this.Size ; wfval(p) = this.Size == 0 || rdable(p, this.Size)
+//@ type BytesCodec : typed = true ; dsz = 24 ; wfc = true ; cend(b, i) = vend(b, i) + int(vval(b, i)) ; wfval(p) = rdable(p, 24) && wfslice(membytes(p))
+//@ type StringCodec : typed = true ; dsz = 16 ; wfc = true ; cend(b, i) = vend(b, i) + int(vval(b, i)) ; wfval(p) = rdable(p, 16) && wfslice(memstr(p))
+//@ type nullCodec : typed = true ; dsz = 0 ; wfc = true ; cend(b, i) = i ; wfval(p) = true
 
 // ---------------------------------------------------------------- union.go (Avro: a union is encoded as a long branch index followed by the branch value)
 
-//@ type *unionOneAndNullCodec : dsz = dsz(this.codec) ; wfc = this != nil && this.codec != nil && wfc(this.codec) && this.nonNull <= 1 && 0 <= dsz(this.codec) ; \
+//@ type *unionOneAndNullCodec : typed = typed(this.codec) ; dsz = dsz(this.codec) ; wfc = this != nil && this.codec != nil && wfc(this.codec) && this.nonNull <= 1 && 0 <= dsz(this.codec) ; \
 //@      cend(b, i) = (b[i] >> 1) == this.nonNull ? cend(this.codec, b, i+1) : i+1 ; wfval(p) = wfval(this.codec, p)
-//@ type *unionNullString : dsz = 16 ; wfc = this != nil && this.nonNull <= 1 ; \
+//@ type *unionNullString : typed = true ; dsz = 16 ; wfc = this != nil && this.nonNull <= 1 ; \
 //@      cend(b, i) = (b[i] >> 1) == this.nonNull ? vend(b, i+1) + int(vval(b, i+1)) : i+1 ; wfval(p) = rdable(p, 16) && wfslice(memstr(p))
 
 //@ func (*unionOneAndNullCodec).Read
 //@   implements Codec.Read
 //@   let i0 := r.i, b0 := r.buf, sel := r.buf[r.i]
-//@   requires wfRBS(r) && wfc(asiface(u)) && (dsz(u.codec) > 0 ==> p != nil) && rawalloc(p, dsz(u.codec))
+//@   requires wfRBS(r) && wfc(asiface(u)) && typed(asiface(u)) && (dsz(u.codec) > 0 ==> p != nil) && rawalloc(p, dsz(u.codec))
 //@   ensures [C03,C06] i0 < len(b0) && sel >= 4 ==> err != nil
 //@   ensures [C03] err == nil && sel == 2 * u.nonNull ==> tlen() == 2 && tkind(0) == evRB && tkind(1) == evCR && ta(1) == tag(u.codec) && tb(1) == uint64(data(u.codec)) && tc(1) == uint64(p)
 //@   ensures [C03] err == nil && sel == 2 * (1 - u.nonNull) ==> tlen() == 1 && tkind(0) == evRB
@@ -423,7 +425,7 @@ package avro
 
 //@ func (*unionOneAndNullCodec).Write
 //@   implements Codec.Write
-//@   requires w != nil && wfc(asiface(u)) && wfval(u.codec, p)
+//@   requires w != nil && wfc(asiface(u)) && typed(asiface(u)) && wfval(u.codec, p)
 //@   ensures [C13,C02] omitv(u.codec, p) ==> tlen() == 1 && tkind(0) == evV && ta(0) == 1 - uint64(u.nonNull)
 //@   ensures [C13,C02] !omitv(u.codec, p) ==> tlen() == 2 && tkind(0) == evV && ta(0) == uint64(u.nonNull) && tkind(1) == evCW && ta(1) == tag(u.codec) && tb(1) == uint64(data(u.codec)) && tc(1) == uint64(p)
 //@   ensures (base(w.buf) == old(base(w.buf)) || (newobj(w.buf) && !cowned(w.buf))) && off(w.buf) == old(off(w.buf))
@@ -464,7 +466,7 @@ package avro
 
 //@ iface Codec.New
 //@   let i0 := r.i, b0 := r.buf
-//@   requires wfRBS(r) && this != nil && wfc(this)
+//@   requires wfRBS(r) && this != nil && wfc(this) && typed(this)
 //@   ensures [C05,C20,C03,C04] wfRBS(r) && r.i == i0 && r.buf == b0 && sameobj(b0)
 //@   ensures [C05,C20,C11] dsz(this) > 0 ==> res != nil && rawalloc(res, dsz(this)) && rawfresh(res, dsz(this)) && zeroed(res, dsz(this))
 //@   modifies r.rb.types, type resourceType, M[0, 0]
@@ -472,13 +474,13 @@ package avro
 
 // ---------------------------------------------------------------- pointer.go
 
-//@ type *PointerCodec : dsz = 8 ; wfc = this != nil && this.Codec != nil && wfc(this.Codec) && 0 < dsz(this.Codec) ; \
+//@ type *PointerCodec : typed = typed(this.Codec) ; dsz = 8 ; wfc = this != nil && this.Codec != nil && wfc(this.Codec) && 0 < dsz(this.Codec) ; \
 //@      cend(b, i) = cend(this.Codec, b, i) ; wfval(p) = rdable(p, 8) && (mem64(p) == 0 || wfval(this.Codec, ptr(mem64(p))))
 
 //@ func (*PointerCodec).Read
 //@   implements Codec.Read
 //@   let i0 := r.i, b0 := r.buf
-//@   requires wfRBS(r) && wfc(asiface(c)) && p != nil && rawalloc(p, 8) && zeroed(p, 8)
+//@   requires wfRBS(r) && wfc(asiface(c)) && typed(asiface(c)) && p != nil && rawalloc(p, 8) && zeroed(p, 8)
 //@   ensures [C03,C05] mem64(p) != 0 && rawfresh(ptr(mem64(p)), dsz(c.Codec))
 //@   ensures [C03] tlen() == 2 && tkind(0) == evNEW && tkind(1) == evCR && ta(1) == tag(c.Codec) && tb(1) == uint64(data(c.Codec)) && tc(1) == mem64(p)
 //@   modifies r.i, M[p, 8], r.rb.sData, r.rb.types, type resourceType, BH[r.rb.sData]
@@ -491,7 +493,7 @@ package avro
 
 //@ func (*PointerCodec).Write
 //@   implements Codec.Write
-//@   requires w != nil && wfc(asiface(c)) && wfval(asiface(c), p)
+//@   requires w != nil && wfc(asiface(c)) && typed(asiface(c)) && wfval(asiface(c), p)
 //@   ensures [C13,C02] mem64(p) == 0 ==> tlen() == 0 && w.buf == old(w.buf)
 //@   ensures [C13,C02] mem64(p) != 0 ==> tlen() == 1 && tkind(0) == evCW && ta(0) == tag(c.Codec) && tb(0) == uint64(data(c.Codec)) && tc(0) == mem64(p)
 //@   ensures (base(w.buf) == old(base(w.buf)) || (newobj(w.buf) && !cowned(w.buf))) && off(w.buf) == old(off(w.buf))
@@ -504,10 +506,10 @@ package avro
 //@ axiom rend_unfold(c ptr, b bytes, i int, k int): rend(c, b, i, 0) == i && (0 <= k && k < len(c.fields) ==> rend(c, b, i, k+1) == cend(c.fields[k].codec, b, rend(c, b, i, k)))
 
 //@ spec fieldOK(rc ptr, k int) bool = rc.fields[k].codec != nil && wfc(rc.fields[k].codec) && 0 <= dsz(rc.fields[k].codec) && dsz(rc.fields[k].codec) < 1<<40 \
-//@      && (rc.fields[k].offset != MaxUint64 ==> rc.fields[k].offset < 1<<40 && int(rc.fields[k].offset) + dsz(rc.fields[k].codec) <= recsz(rc) && dsz(rc.fields[k].codec) > 0)
+//@      && (rc.fields[k].offset != MaxUint64 ==> typed(rc.fields[k].codec) && rc.fields[k].offset < 1<<40 && int(rc.fields[k].offset) + dsz(rc.fields[k].codec) <= recsz(rc) && dsz(rc.fields[k].codec) > 0)
 //@ spec present(rc ptr, k int) bool = rc.fields[k].offset != MaxUint64
 //@ spec disjointFields(rc ptr, j int, k int) bool = int(rc.fields[j].offset) + dsz(rc.fields[j].codec) <= int(rc.fields[k].offset) || int(rc.fields[k].offset) + dsz(rc.fields[k].codec) <= int(rc.fields[j].offset)
-//@ type *recordCodec : dsz = recsz(this) ; wfc = this != nil && 0 <= recsz(this) && recsz(this) < 1<<40 && (forall k int :: 0 <= k && k < len(this.fields) ==> fieldOK(this, k)) \
+//@ type *recordCodec : typed = true ; dsz = recsz(this) ; wfc = this != nil && 0 <= recsz(this) && recsz(this) < 1<<40 && (forall k int :: 0 <= k && k < len(this.fields) ==> fieldOK(this, k)) \
 //@        && (forall j int, k int :: 0 <= j && j < k && k < len(this.fields) && present(this, j) && present(this, k) ==> disjointFields(this, j, k)) ; \
 //@      cend(b, i) = rend(this, b, i, len(this.fields)) ; \
 //@      wfval(p) = p != nil && (forall k int :: 0 <= k && k < len(this.fields) ==> this.fields[k].offset != MaxUint64 && wfval(this.fields[k].codec, uintptr(p) + this.fields[k].offset))
@@ -688,7 +690,7 @@ package avro
 
 //@ func (Schema).Codec
 //@   requires out != nil
-//@   ensures [C05] err == nil ==> res != nil && wfc(res) && dsz(res) == rtypesz(outdesc(out)) && 0 <= dsz(res)
+//@   ensures [C05] err == nil ==> res != nil && wfc(res) && typed(res) && dsz(res) == rtypesz(outdesc(out)) && 0 <= dsz(res)
 //@   pure
 //@   trusted
 
@@ -805,7 +807,8 @@ package avro
 // decoded extent (C04) is therefore stated for such inputs.  Used only by (*arrayCodec).Skip and (*MapCodec).Skip.
 //@ axiom block_size_exact(c ptr, b bytes, i int): vval(b, i) < 0 ==> items(c, b, vend(b, vend(b, i)), -vval(b, i)) == vend(b, vend(b, i)) + int(vval(b, vend(b, i)))
 
-//@ type *arrayCodec : dsz = 24 ; wfc = this != nil && this.itemCodec != nil && wfc(this.itemCodec) && this.itemType != nil && data(this.itemType) != nil && dsz(this.itemCodec) == isz(this) && 0 <= isz(this) && isz(this) < 1<<22 ; \
+//@ type *arrayCodec : dsz = 24 ; wfc = this != nil && this.itemCodec != nil && wfc(this.itemCodec) ; \
+//@      typed = this.itemType != nil && data(this.itemType) != nil && dsz(this.itemCodec) == isz(this) && 0 <= isz(this) && isz(this) < 1<<22 && typed(this.itemCodec) ; \
 //@      cend(b, i) = blk(this, b, i) ; wfval(p) = rdable(p, 24) && 0 <= memint(uintptr(p)+8, 8) && memint(uintptr(p)+8, 8) < 1<<40 \
 //@        && (forall k int :: 0 <= k && k < memint(uintptr(p)+8, 8) ==> wfval(this.itemCodec, mem64(p) + uint64(k * isz(this))))
 
@@ -833,7 +836,7 @@ package avro
 //@ func (*arrayCodec).Read
 //@   implements Codec.Read
 //@   let i0 := r.i, b0 := r.buf, sd0 := r.rb.sData, rb0 := r.rb, sz := isz(rc)
-//@   requires wfRBS(r) && wfc(asiface(rc)) && p != nil && rawalloc(p, 24) && zeroed(p, 24)
+//@   requires wfRBS(r) && wfc(asiface(rc)) && typed(asiface(rc)) && p != nil && rawalloc(p, 24) && zeroed(p, 24)
 //@   ensures [C04] err == nil ==> r.i == blk(rc, b0, i0)
 //@   modifies r.i, M[p, 24], r.rb.sData, r.rb.types, type resourceType, BH[r.rb.sData]
 //     outer loop: one iteration per block
@@ -987,7 +990,7 @@ package avro
 //@ func (*arrayCodec).Write
 //@   implements Codec.Write
 //@   let b0 := w.buf, L := hL(p), D := hD(p), sz := isz(rc)
-//@   requires w != nil && wfc(asiface(rc)) && wfval(asiface(rc), p)
+//@   requires w != nil && wfc(asiface(rc)) && typed(asiface(rc)) && wfval(asiface(rc), p)
 //@   ensures [C02,C13] L == 0 ==> tlen() == 1 && tkind(0) == evV && ta(0) == 0
 //@   ensures [C02,C13] L > 0 ==> tlen() == L + 2 && tkind(0) == evV && ta(0) == uint64(L) && tkind(L + 1) == evV && ta(L + 1) == 0 \
 //@        && (forall k int :: 0 <= k && k < L ==> tkind(k + 1) == evCW && ta(k + 1) == tag(rc.itemCodec) && tb(k + 1) == uint64(data(rc.itemCodec)) && tc(k + 1) == D + uint64(k * sz))
@@ -1003,3 +1006,40 @@ package avro
 //@   requires rc != nil && rdable(p, 24)
 //@   ensures res == (rc.omitEmpty && hL(p) == 0)
 //@   pure
+
+// ================================================================ map.go
+// Avro maps are encoded like arrays, each item being a string key followed by the value.
+//@ ghost mblk(c ptr, b bytes, i int) int
+//@ ghost mitems(c ptr, b bytes, j int, k int64) int
+//@ spec kend(b bytes, j int) int = vend(b, j) + int(vval(b, j))
+//@ axiom mblk_unfold(c ptr, b bytes, i int): (vval(b, i) == 0 ==> mblk(c, b, i) == vend(b, i)) \
+//@      && (vval(b, i) > 0 ==> mblk(c, b, i) == mblk(c, b, mitems(c, b, vend(b, i), vval(b, i)))) \
+//@      && (vval(b, i) < 0 ==> mblk(c, b, i) == mblk(c, b, mitems(c, b, vend(b, vend(b, i)), -vval(b, i))))
+//@ axiom mitems_unfold(c ptr, b bytes, j int, k int64): (k <= 0 ==> mitems(c, b, j, k) == j) && (k > 0 ==> mitems(c, b, j, k) == mitems(c, b, cend(c.valueCodec, b, kend(b, j)), k - 1))
+// INPUT ASSUMPTION, as for arrays: a declared block byte size is exact.  Used only by (*MapCodec).Skip.
+//@ axiom mblock_size_exact(c ptr, b bytes, i int): vval(b, i) < 0 ==> mitems(c, b, vend(b, vend(b, i)), -vval(b, i)) == vend(b, vend(b, i)) + int(vval(b, vend(b, i)))
+
+//@ type *MapCodec : dsz = 8 ; wfc = this != nil && this.valueCodec != nil && wfc(this.valueCodec) && 0 <= dsz(this.valueCodec) ; typed = this.rtype != nil && data(this.rtype) != nil && typed(this.valueCodec) ; \
+//@      cend(b, i) = mblk(this, b, i) ; wfval(p) = rdable(p, 8)
+
+//@ func (*MapCodec).Skip
+//@   implements Codec.Skip
+//@   let i0 := r.i, b0 := r.buf
+//@   requires wfRB(r) && wfc(asiface(m))
+//@   ensures [C04] err == nil ==> r.i == mblk(m, b0, i0)
+//@   modifies r.i
+//@   loop 1 invariant wfRB(r) && r.buf == b0 && i0 <= r.i
+//@   loop 1 invariant [C04] mblk(m, b0, i0) == mblk(m, b0, r.i)
+//@   loop 1 uses mblk_unfold(m, b0, r.i)
+//@   loop 1 uses mblock_size_exact(m, b0, r.i)
+//@   loop 1 decreases len(b0) - r.i
+//@   loop 2 invariant wfRB(r) && r.buf == b0 && i0 <= r.i && 0 <= count && len(b0) - r.i < loopdec(1)
+//@   loop 2 invariant [C04] mblk(m, b0, i0) == mblk(m, b0, mitems(m, b0, r.i, count))
+//@   loop 2 uses mitems_unfold(m, b0, r.i, count)
+//@   loop 2 decreases count
+
+//@ func (*MapCodec).New
+//@   implements Codec.New
+//@   requires m != nil && m.rtype != nil
+//@   ensures [C05,C06] res != nil
+//@   modifies M[0, 0]
